@@ -110,6 +110,14 @@ broadcast use prefix_trans, prefix_refl;
 //@ header
 pub fn is_running(&self) -> (r: bool)
     ensures r == (*self is Running), // OBL:C09.is_running.exact
+//@ item CommandState::is_pending
+//@ header
+pub fn is_pending(&self) -> (r: bool)
+    ensures r == (*self is Pending), // OBL:C09.is_pending.exact
+//@ item CommandState::is_finished
+//@ header
+pub fn is_finished(&self) -> (r: bool)
+    ensures r == (*self is Finished), // OBL:C09.is_finished.exact
 //@ item CommandState::spawn
 //@ header
 pub fn spawn(&mut self, command: ArcCommand, mut spawnable: Spawnable, env: &mut Env) -> (r: Result<bool, IoError>)
@@ -170,6 +178,7 @@ broadcast use axiom_terminate_to_nix;
 // arm, every clause is proved for each group, and lemma_control_groups_cover shows the groups are exhaustive. Same extracted body every time.
 //@ defblock CH_REQ
         inv_live(&*old(command_state), old(env)),
+        waiters_ok(&*old(command_state), old(on_end)@),
         // while a grace timer is armed `recv` hands out only the timer's own control (disarming it) or urgent/high messages
         // (C06.recv.normal_held_back_while_armed), and the Job API sends only Stop/Delete as urgent and NextEnding as high (C10.job.*)
         $ARMED_PRE,
@@ -181,6 +190,7 @@ broadcast use axiom_terminate_to_nix;
 //@ defblock CH_ENS
         // ---- C04 ----
         inv_live(&*final(command_state), final(env)), // OBL:C04+C05.control_handler.at_most_one_live_child
+        waiters_ok(&*final(command_state), final(on_end)@), // OBL:C07+C09.control_handler.wait_for_end_tickets_are_parked_only_while_a_process_runs
         // ---- C07: tickets ----
         r is Normally ==> final(env).raised@.contains(done.id), // OBL:C07+C09.control_handler.completed_control_resolves_its_ticket
         r is Skip ==> parked(done.id, *final(stop_timer), final(on_end)@, *final(on_end_restart)), // OBL:C07+C09.control_handler.deferred_ticket_is_parked
@@ -202,7 +212,7 @@ broadcast use axiom_terminate_to_nix;
         control is TryGracefulRestart ==> c09_graceful($OV, $FV, $ENVS, control->TryGracefulRestart_signal, control->TryGracefulRestart_grace, done.id, true, r is Skip), // OBL:C06+C09.control.try_graceful_restart
         control is Signal ==> c09_signal($OV, $FV, $ENVS, control->Signal_0) && r is Normally, // OBL:C09.control.signal
         control is Delete ==> n_of($ENVS) == 0 && unchanged($OV, $FV) && r is Break, // OBL:C08+C09.control.delete
-        control is NextEnding ==> c09_next_ending($OV, $FV, $ENVS, done.id) && (r is Skip <==> cs_view(&*old(command_state)) is Running), // OBL:C09.control.next_ending
+        control is NextEnding ==> c09_next_ending($OV, $FV, $ENVS, done.id) && (r is Skip <==> cs_view(&*old(command_state)) is Running), // OBL:C09+C07.control.next_ending
         control is SyncFunc || control is AsyncFunc ==> c09_func($OV, $FV, $ENVS) && r is Normally, // OBL:C09.control.func
         control is SetSyncSpawnHook ==> c09_set_hooks($OV, $FV, $ENVS, $OV.eh, SpawnHook::Sync(control->SetSyncSpawnHook_0)) && r is Normally, // OBL:C09+C18.control.set_sync_spawn_hook
         control is SetAsyncSpawnHook ==> c09_set_hooks($OV, $FV, $ENVS, $OV.eh, SpawnHook::Async(control->SetAsyncSpawnHook_0)) && r is Normally, // OBL:C09+C18.control.set_async_spawn_hook
@@ -316,8 +326,10 @@ fn wait_handler($STATE_PARAMS) -> (r: Loop)
     requires
         inv_live(&*old(command_state), old(env)),
         inv_restart(*old(stop_timer), *old(on_end_restart), old(env)),
+        waiters_ok(&*old(command_state), old(on_end)@),
     ensures
         inv_live(&*final(command_state), final(env)), // OBL:C04+C05.wait_handler.at_most_one_live_child
+        waiters_ok(&*final(command_state), final(on_end)@), // OBL:C07+C09.wait_handler.wait_for_end_tickets_are_parked_only_while_a_process_runs
         // every ticket parked in the task is resolved or still parked afterwards (none is dropped), whatever fails
         forall|f: int| parked(f, *old(stop_timer), old(on_end)@, *old(on_end_restart)) ==>
             final(env).raised@.contains(f) || parked(f, *final(stop_timer), final(on_end)@, *final(on_end_restart)), // OBL:C07+C09.wait_handler.no_ticket_is_dropped
@@ -495,6 +507,7 @@ invariant
     wf_rx(&receiver), // OBL:C10.job_task.receiver_wellformed
     inv_live(&command_state, env), // OBL:C04+C05.job_task.at_most_one_live_child_at_every_iteration
     inv_restart(stop_timer, on_end_restart, env), // OBL:C07.job_task.restart_ticket_covered_at_every_iteration
+    waiters_ok(&command_state, on_end@), // OBL:C07+C09.job_task.wait_for_end_tickets_are_parked_only_while_a_process_runs
     senders_ok(env.urgent@, env.high@), // OBL:C06.job_task.urgent_and_high_queues_hold_only_their_classes
 //@ hint 0 after `Loop::Break => {`
 proof { told_to_end = true; }
